@@ -1404,6 +1404,16 @@ pub fn draw_cfg(rng: &mut Rng, prop: Prop, thorough: bool, kind: Kind) -> RunCfg
 	}
 }
 
+/// Bases and references of RFC 3986 section 5.4 plus abnormal shapes, for the resolve steps.
+const RESOLVE_BASES: &[&str] = &[
+	"http://a/b/c/d;p?q", "http://a//b/c", "http://a", "http://a/", "s://h/..", "s:/", "s:", "s:a/b", "s:a:b", "s:/.//x", "s://h//", "s://u@[::1]:8/x/../y?q#f", "a+b:/./?q#f",
+];
+const RESOLVE_REFS: &[&str] = &[
+	"g:h", "g", "./g", "g/", "/g", "//g", "?y", "g?y", "#s", "g#s", "g?y#s", ";x", "g;x", "g;x?y#s", "", ".", "./", "..", "../", "../g", "../..", "../../", "../../g",
+	"../../../g", "../../../../g", "/./g", "/../g", "g.", ".g", "g..", "..g", "./../g", "./g/.", "g/./h", "g/../h", "g;x=1/./y", "g;x=1/../y", "g?y/./x", "g?y/../x", "g#s/./x", "g#s/../x",
+	"//g/../x", "//g/a:b", "./a:b", "../a:b", "..//x", ".//x", "/..//x", "//h", "//h:", "../x/y", "a:b/../c",
+];
+
 /// Path shapes around the shield rules and the window arithmetic (all valid stand-alone paths).
 const CURATED_PATHS: &[&str] = &[
 	"", "/", "./", "/./", ".", "/.", "..", "/..", "./x", "/./x", ".//x", "/.//x", "./a:b", "/./a:b", "//", "///", "//x", "a/", "a//", "/a/./", "a/./", "a/..", "a/../", "/a/..",
@@ -1496,6 +1506,8 @@ pub fn gen_init(rng: &mut Rng, prop: Prop, stats: &mut Stats) -> (Init, Swarm) {
 					} else {
 						g.path(PathCtx::Standalone)
 					}
+				} else if kind.is_ref() && prop == Prop::C04 && g.rng.chance(1, 12) {
+					g.rng.pick(RESOLVE_REFS).to_string()
 				} else if g.rng.chance(1, 10) {
 					// curated shapes around the disambiguation rules: a scheme / authority prefix
 					// (or none), a path that is or contains a shield, a query or fragment that
@@ -1757,7 +1769,9 @@ pub fn gen_step(rng: &mut Rng, cfg: &RunCfg, prop: Prop, kind: Kind, cur: &[u8])
 			}
 		}
 		1 => {
-			let base = if g.rng.chance(1, 6) && s5.scheme.is_some() {
+			let base = if g.rng.chance(1, 4) {
+				g.rng.pick(RESOLVE_BASES).to_string()
+			} else if g.rng.chance(1, 6) && s5.scheme.is_some() {
 				// own text as the base (self-referential), fragment and all
 				String::from_utf8(cur.to_vec()).unwrap_or_else(|_| "s:".into())
 			} else {
